@@ -15,6 +15,10 @@ RULES = {
              "submitted (one SQE per plan element, submit_and_wait(plan.len()), completion check) before the publish, and the planning loop plans every batch index exactly once",
     "C07.2": "recovery does not fail for data reasons: the error exits of the open path (with_paths, startup_chore and callees) all originate from filesystem calls or lock poisoning, "
              "never from a decode/parse of file contents (frozen table of error sources)",
+    "C07.3": "recovery counts only verified entries: in the per-unit entry scan of startup_chore, every amount by which the scan offset (and with it the block's used bytes) advances is "
+             "the size returned by a verified read - a callee all of whose success returns are dominated by the equal-edge of a comparison with checksum64 of the payload. An entry "
+             "whose header alone was inspected may be the torn remainder of an append that was never acknowledged; counting it puts garbage between the acknowledged entries and "
+             "everything appended after the restart",
 }
 
 OPEN_ERR_SOURCES = {
@@ -98,6 +102,7 @@ def check_chain(ctx, facts):
     ctx.saw_body(blk)
     sw = blk.calls(re.compile(r"SharedMmap::write$"))
     oks = _ok_returns(blk)
+    f = fmtfeat.encoder_features(blk)
     if len(sw) == 1 and oks and all(blk.dominates(sw[0].bb, r) for r in oks):
         ctx.ok("C07.1", "block::Block::write", "Ok return is dominated by SharedMmap::write", blk.relfile, sw[0].line)
         off = show(strip_refs(expr(blk, sw[0].node["args"][1])))
@@ -105,12 +110,28 @@ def check_chain(ctx, facts):
             ctx.ok("C07.1", "block::Block::write", "file offset = block.offset + in_block_offset", blk.relfile, sw[0].line)
         else:
             ctx.violate("C07.1", "block::Block::write", "file-offset", blk.relfile, sw[0].line, "the file offset written is %s" % off)
-        f = fmtfeat.encoder_features(blk)
         buf = strip_refs(expr(blk, sw[0].node["args"][2]))
         if f and f["combined_order"] == ["PREFIX", "DATA"] and "with_capacity" in show(buf):
             ctx.ok("C07.1", "block::Block::write", "the buffer written is prefix + payload", blk.relfile, sw[0].line)
         else:
             ctx.violate("C07.1", "block::Block::write", "buffer-written", blk.relfile, sw[0].line, "the buffer handed to SharedMmap::write is not the combined prefix+payload buffer")
+    elif f and f.get("_split_writes") and oks:
+        # header and payload written separately (accepted idiom): both before every Ok return; the payload
+        # write may be skipped only when the payload is empty
+        pw, dw = f["_split_writes"]
+        good = all(blk.dominates(pw.bb, r) for r in oks)
+        if good and not all(blk.dominates(dw.bb, r) for r in oks):
+            from .core.cond import bypass_edges, classify_edge
+            for e in bypass_edges(blk, pw.bb, [dw.bb]):
+                T, which = classify_edge(blk, e)
+                desc = show(strip_refs(expr(blk, T.a))) if T is not None and T.kind == "cmp" else (T.callee if T is not None and T.kind == "call" else "")
+                if not (T is not None and ("is_empty" in str(desc) or (T.kind == "cmp" and "len(" in str(desc) and const_of(blk, T.b) == 0))):
+                    good = False
+        offp = show(strip_refs(expr(blk, pw.node["args"][1])))
+        if good and re.search(r"Add\((self\.offset, in_block_offset|in_block_offset, self\.offset)\)", offp):
+            ctx.ok("C07.1", "block::Block::write", "Ok return is dominated by the header write and (unless the payload is empty) the payload write at block.offset + in_block_offset (+ PREFIX_META_SIZE)", blk.relfile, pw.line)
+        else:
+            ctx.violate("C07.1", "block::Block::write", "ack-without-write", blk.relfile, blk.line, "Block::write can return Ok without having written header and payload at the entry's offset")
     else:
         ctx.violate("C07.1", "block::Block::write", "ack-without-write", blk.relfile, blk.line, "Block::write can return Ok without calling SharedMmap::write")
     # (d) storage chain
@@ -235,6 +256,87 @@ def check_batch(ctx, facts):
         ctx.anchor_missing("C07.1", "SQE push / submit_and_wait in the io_uring helper")
 
 
+def verified_readers(facts):
+    """short names of bodies whose every Ok return is dominated by the equal edge of a
+    comparison against checksum64(..) (or by the Ok edge of a call to such a body)."""
+    ver = set()
+    changed = True
+    while changed:
+        changed = False
+        for name, b in facts.bodies.items():
+            sn = common.short_fn(name)
+            if sn in ver or b.j.get("derived") or b.kind == "closure":
+                continue
+            if not str(b.j.get("ret_ty", "")).startswith("std::result::Result"):
+                continue
+            oks = _ok_returns(b)
+            if not oks:
+                continue
+            gates = []
+            for T in all_tests(b):
+                if T.kind == "cmp" and T.op in ("Eq", "Ne"):
+                    sh = show(strip_refs(expr(b, T.a)), 6) + "|" + show(strip_refs(expr(b, T.b)), 6)
+                    if "checksum64(" in sh:
+                        gates.append(T.true_edge if T.op == "Eq" else T.false_edge)
+            for c in b.calls():
+                if common.short_fn(strip_generics(c.node.get("callee") or "")) in ver:
+                    ok_e, _ = result_edges(b, c)
+                    gates += ok_e
+            if gates and all(any(b.edge_guards(e, r) for e in gates) for r in oks):
+                ver.add(sn)
+                changed = True
+    return ver
+
+
+def check_recovery_verifies(ctx, facts):
+    b = facts.body("walrus::Walrus::startup_chore")
+    F = "walrus::Walrus::startup_chore"
+    ver = verified_readers(facts)
+    if "block::Block::read" not in ver:
+        ctx.violate("C07.3", "block::Block::read", "reader-not-verified", None, None, "Block::read can return Ok without the payload checksum having been compared")
+    D = facts.const_val("config::DEFAULT_BLOCK_SIZE")
+    n = 0
+    reads = [c for c in b.calls() if common.short_fn(strip_generics(c.node.get("callee") or "")) in ver or re.search(r"block::Block::\w+$", strip_generics(c.node.get("callee") or ""))]
+    loops = []
+    for c in reads:
+        hb, L = b.enclosing_loop(c.bb)
+        if L is not None and (hb, frozenset(L)) not in loops:
+            loops.append((hb, frozenset(L)))
+    for hb, L in loops:
+        for site, st in b.assigns():
+            if site.bb not in L or st["place"]["p"] or st["rv"]["k"] != "use":
+                continue
+            e = strip_refs(expr(b, st["rv"]["op"]))
+            if e[0] != "Add":
+                continue
+            tgt = st["place"]["l"]
+            if b.local_ty(tgt) != "u64" or b.local_name(tgt) is None:
+                continue
+            # amount = the operand that is not the accumulator itself
+            amt = None
+            for side in (e[1], e[2]):
+                if show(strip_refs(side)) != (b.local_name(tgt) or ""):
+                    amt = side
+            if amt is None or fmtfeat.const_eval(amt) is not None:
+                continue
+            # origin calls of the amount, read off the assignment's operand chain
+            rv_op = st["rv"]["op"]
+            src, _, _ = origins(b, rv_op)
+            calls = {common.short_fn(strip_generics(o.what)) for o in src if o.kind == "call"}
+            calls = {c_ for c_ in calls if not re.search(r"::(checked_add|saturating_add|wrapping_add|from|into|map|unwrap_or)$", c_)}
+            if not calls:
+                continue
+            n += 1
+            bad = sorted(c_ for c_ in calls if c_ not in ver)
+            if bad:
+                ctx.violate("C07.3", F, "recovery-counts-unverified-entry:" + bad[0].split("::")[-1], b.relfile, site.line,
+                            "the recovery scan advances `%s` by a size obtained from %s, which does not compare the payload checksum: a header whose payload was never written (a "
+                            "crash between the two, or a rolled-back batch) is counted into the block" % (b.local_name(tgt), ", ".join(bad)))
+            else:
+                ctx.ok("C07.3", F, "`%s` advances only by the size of a checksum-verified read" % b.local_name(tgt), b.relfile, site.line)
+    ctx.floor("C07.3", "advances of the recovery entry scan", n, 2)
+
+
 def check_open_errors(ctx, facts):
     n = 0
     for fn in ("walrus::Walrus::with_paths", "walrus::Walrus::startup_chore", "walrus::Walrus::rebuild_topic_entry_counts_after_recovery"):
@@ -272,6 +374,7 @@ def run(ctx):
     facts = common.mir(ctx, "walrus_rust")
     check_chain(ctx, facts)
     check_batch(ctx, facts)
+    check_recovery_verifies(ctx, facts)
     check_open_errors(ctx, facts)
     ctx.assume("crash model of the property: completed write syscalls persist across a process crash; what recovery reconstructs from the bytes is covered only by the layout/scan clauses of C06")
     ctx.assume("the discarded result of the positional write in FdBackend::write is reported under C04.4 (known finding), not repeated here")
